@@ -292,7 +292,7 @@ def build_mixed(ch, acc, with_ack_groups=True, **kw):
 
 
 ENVELOPE_FAULTS = ['se-count', 'se-id', 'ge-count', 'ge-id', 'iea-count', 'iea-id', 'gs-date', 'gs-time', 'st-dup', 'gs-dup', 'gs-code',
-                   'se-count-alpha', 'st-id-long', 'se-count', 'st-dup', 'st-many-codes', 'st-many-codes', 'st-many-codes', 'drop-trailer', 'st-dup-far', 'gs-dup-far', 'trailer-and-neighbour', 'trailer-and-neighbour', 'envelope-extra-element', 'envelope-extra-element', 'stray-after-trailer', 'stray-after-trailer', 'spelling', 'spelling', 'spelling', 'header-cut-short', 'header-cut-short', 'count-with-components', 'count-with-components', 'empty-group', 'empty-group', 'empty-interchange', 'empty-interchange']
+                   'se-count-alpha', 'st-id-long', 'se-count', 'st-dup', 'st-many-codes', 'st-many-codes', 'st-many-codes', 'drop-trailer', 'st-dup-far', 'gs-dup-far', 'trailer-and-neighbour', 'trailer-and-neighbour', 'envelope-extra-element', 'envelope-extra-element', 'stray-after-trailer', 'stray-after-trailer', 'spelling', 'spelling', 'spelling', 'header-cut-short', 'header-cut-short', 'count-with-components', 'count-with-components', 'empty-group', 'empty-group', 'empty-interchange', 'empty-interchange', 'bad-ta1-after-ge', 'bad-ta1-after-ge']
 
 
 def envelope_fault(doc, ch, reencoded=False):
@@ -397,6 +397,15 @@ def _envelope_fault(doc, ch, reencoded=False):
                     except ValueError:
                         pass
                     break
+    elif kind == 'bad-ta1-after-ge':
+        # an interchange acknowledgement segment after the last group (where the control maps allow it), with an impossible
+        # time: its error belongs to no transaction set
+        ge = [i for i, s_ in enumerate(doc.segs) if s_.id == 'GE']
+        if not ge or ge[-1] + 1 >= len(doc.segs) or doc.segs[ge[-1] + 1].id != 'IEA':
+            return None
+        isa = [s_ for s_ in doc.segs if s_.id == 'ISA']
+        ctl = isa[-1].vals[12][0] if isa and len(isa[-1].vals) > 12 else '000000001'
+        doc.segs.insert(ge[-1] + 1, faults._Fake('TA1', [[ctl], ['040101'], ['2560'], ['A'], ['000']], doc.segs[ge[-1]]))
     elif kind == 'empty-interchange':
         # a last interchange without any functional group (ISA directly followed by IEA*0, or holding a TA1 only)
         isa = [s_ for s_ in doc.segs if s_.id == 'ISA']
